@@ -651,7 +651,7 @@ theorem iter_invB (P : Prob n K) (hW : WF P) (hH : P.H.IsSymm) (Q : Params n K) 
         · exact same hr
         · -- the iterate moves
           have hgneg : s.grad ⬝ᵥ s.sd < 0 := by
-            have := hQ.thr s.grad
+            have := hQ.thr (fun i => if s.free i then s.grad i else 0)
             have h2 := not_le.mp hdesc
             linarith
           obtain ⟨a0, a1⟩ := alpha0Of_spec Q aTr (s.grad ⬝ᵥ s.sd) (s.sd ⬝ᵥ P.H *ᵥ s.sd) hat0
